@@ -45,7 +45,7 @@ def gen_cases(ctx):
   rng = ctx.rng
   for i in range(ctx.n):
     kind = ["prod", "prod", "kfl", "lattice", "pwl", "categorical"][i % 6]
-    yield {"kind": kind, "seed": int(rng.randint(2**31 - 1)), "zeros": ["none", "one", "two", "many", "mixed"][int(rng.randint(5))]}
+    yield {"kind": kind, "seed": int(rng.randint(2**31 - 1)), "zeros": ["none", "one", "two", "many", "mixed", "tiny", "tiny_and_zero"][int(rng.randint(7))]}
 
 
 def _cmp(ctx, site, got, want, what, extra=None):
@@ -77,6 +77,13 @@ def _run_prod(ctx, case, st):
         flat[r, c] = 0.0
     elif z == "many":
       flat[r, rng.rand(shape[ax]) < .7] = 0.0
+    elif z == "tiny":          # tiny but non-zero factors are not zeros
+      flat[r, rng.randint(shape[ax])] = float(rng.choice([1e-8, -5e-8, 1e-20, 3e-7]))
+    elif z == "tiny_and_zero":
+      cols_ = rng.choice(shape[ax], size=min(2, shape[ax]), replace=False)
+      flat[r, cols_[0]] = float(rng.choice([1e-8, -1e-12]))
+      if len(cols_) > 1:
+        flat[r, cols_[1]] = 0.0
   t = np.moveaxis(flat.reshape(moved.shape), -1, ax).astype(np.float32)
   T = tf.constant(t)
   up = rng.normal(size=np.delete(np.array(shape), ax)).astype(np.float32)
@@ -127,10 +134,13 @@ def _run_kfl(ctx, case, st):
   layer(tf.constant(xin))
   K = rng.normal(size=layer.kernel.shape).astype(np.float32)
   z = case["zeros"]
-  nz = {"none": 0, "one": 1, "two": 2, "many": dims, "mixed": 1}[z]
-  for d in rng.permutation(dims)[:min(nz, dims)]:
+  nz = {"none": 0, "one": 1, "two": 2, "many": dims, "mixed": 1, "tiny": 1, "tiny_and_zero": 2}[z]
+  for q, d in enumerate(rng.permutation(dims)[:min(nz, dims)]):
     u = int(rng.randint(units))
-    K[0, :, u * dims + int(d), int(rng.randint(T))] = 0.0           # a whole per-dimension vector is zero -> exact zero factor
+    fill = 0.0
+    if z == "tiny" or (z == "tiny_and_zero" and q == 0):
+      fill = float(rng.choice([1e-8, -5e-8, 1e-20]))                   # tiny, not zero
+    K[0, :, u * dims + int(d), int(rng.randint(T))] = fill          # a whole per-dimension vector is zero / tiny -> exact zero / tiny factor
   S = rng.normal(size=layer.scale.shape).astype(np.float32)
   if rng.rand() < .3:
     S[int(rng.randint(units)), int(rng.randint(T))] = 0.0
@@ -157,7 +167,7 @@ def _run_kfl(ctx, case, st):
 
 def _jac_kernel(tf, layer, xin, units):
   """d out[b,u] / d kernel -> (B, units, rows, units)."""
-  X = tf.constant(xin)
+  X = [tf.constant(a) for a in xin] if isinstance(xin, list) else tf.constant(xin)
   with tf.GradientTape() as tape:
     y = layer(X)
     if isinstance(y, list):
@@ -178,14 +188,17 @@ def _run_lattice(ctx, case, st):
   x = rng.uniform(-0.5, np.array(sizes) - 0.5, size=(B, units, rank)).astype(np.float32)
   x[0] = np.floor(np.clip(x[0], 0, np.array(sizes) - 1))            # a vertex
   xin = x if units > 1 else x[:, 0, :]
-  layer(tf.constant(xin))
+  as_list = bool(rng.rand() < .4)
+  if as_list:
+    xin = [xin[..., d:d + 1] for d in range(rank)]
+  layer([tf.constant(a) for a in xin] if as_list else tf.constant(xin))
   jacs = []
   for rep in range(2):
     layer.kernel.assign(rng.normal(size=(n, units)).astype(np.float32) * (1 + 9 * rep))
     J, _ = _jac_kernel(tf, layer, xin, units)
     jacs.append(J.reshape(B, units, n, units))
   wfn = ol.hypercube_weights if interp == "hypercube" else ol.simplex_weights
-  ctx.cls("lattice:" + interp, "lattice:units=%d" % units)
+  ctx.cls("lattice:" + interp, "lattice:units=%d" % units, "lattice:list_input=%s" % as_list)
   for b in range(B):
     for u in range(units):
       want = np.zeros((n, units))
